@@ -61,6 +61,15 @@ func NewValidatorSet(vals []*Validator) *ValidatorSet {
 
 // TODO: mind the overflow when times and votingPower shares too large.
 func (valSet *ValidatorSet) IncrementAccum(times int64) {
+	if times > 1 {
+		// Advancing k rounds at once must select the same proposers (and leave the
+		// same accumulators) as advancing one round k times, otherwise a replica
+		// that skips rounds disagrees with one that went through each of them.
+		for i := int64(0); i < times; i++ {
+			valSet.IncrementAccum(1)
+		}
+		return
+	}
 	// Add VotingPower * times to each validator and order into heap.
 	validatorsHeap := gcmn.NewHeap()
 	for _, val := range valSet.Validators {
